@@ -180,6 +180,27 @@ SPECIAL_SCRIPTS = ["", "\n", "#!/usr/bin/env rash\n", "# only a comment\n# Usage
                    "#!/usr/bin/env rash\n#\n# Usage: prog [options] [options]\n#\n# Options:\n#   -x  x\n#\n- debug:\n    msg: x\n"]
 
 
+CLI_ARGS = [["-e", "=v"], ["-e", "="], ["-e", "k="], ["-e", "k=v=w"], ["-e", " =v"], ["-e", "a b=c"], ["-e", "é=é"], ["-e", "K=" + "v" * 100000],
+            ["-e", "A=1", "-e", "A=2", "-e", "=3"], ["-u", ""], ["-u", "é"], ["-b", "-u", "nosuchuser"], ["-b", "-u", "-1"], ["-b", "-u", "99999999999"],
+            ["-vvvvvvvvvvvvvvvvvvvv"], ["-" + "v" * 300], ["-c", "-d"], ["--output", "raw", "--output", "ansible"], ["-s", ""], ["-s", "- debug:\n    msg: inline"],
+            ["-s", "{{"], ["-s", "\x01"], ["-e", "RUST_BACKTRACE="], ["-e", "PATH="], ["-e", "HOME="], ["-e", "LANG=\udcff".encode("utf-8", "surrogateescape").decode("utf-8", "surrogateescape")]]
+
+USAGE_CHARS = ["<", ">", "a", "B", "-", "_", "+", "[", "]", "(", ")", "|", ".", "{", "}", "=", "#"]
+
+
+def usage_words(rng, tier):
+    import itertools
+    out = []
+    for n in (1, 2, 3):
+        out += ["".join(t) for t in itertools.product(USAGE_CHARS, repeat=n)]
+    for n in (4, 5, 6):
+        for _ in range(1500 if tier == "quick" else 20000):
+            out.append("".join(rng.choice(USAGE_CHARS) for _ in range(n)))
+    if tier == "quick":
+        out = rng.sample(out, 2500) + ["<aB", "<a", "a>", "<>", "<a>B", "A+", "<a>+", "{", "}", "{}", "{-a}", "-a=<", "...", "[...]", "(|)", "[|]", "a|", "|a", "<a-B>"]
+    return out
+
+
 def boundary_scripts():
     out = []
     for k in TASK_KEYWORDS:
@@ -223,9 +244,14 @@ def c13(run, replay=None):
     for argv in [["--", "-"], ["--", "--"], ["--", "=", "-=", "--="], ["--", ""], ["--", "é" * 5000], ["--", "-" * 3000], ["--"] + ["w"] * 300]:
         items.append(("argv", dict(text="#!/usr/bin/env rash\n#\n# Usage: prog [options] [<x>...]\n#\n# Options:\n#   -f  f\n#\n- debug:\n    msg: \"{{ x | default('') }}\"\n", argv=argv)))
 
+    # rash's own command line: every option with boundary values (K26: `-e =v`)
+    plain = "#!/usr/bin/env rash\n- debug:\n    msg: \"{{ env | length }}\"\n"
+    for ra in CLI_ARGS:
+        items.append(("command-line", dict(text=plain, argv=[], rash_args=ra)))
+
     def runit(root, it):
         kind, c = it
-        return run_script(root, c["text"], c.get("argv", ()), c.get("env"))
+        return run_script(root, c["text"], c.get("argv", ()), c.get("env"), rash_args=c.get("rash_args", ()))
     outs = parallel(runit, items)
     nontrivial = set()
     for (kind, c), o in zip(items, outs):
@@ -237,13 +263,21 @@ def c13(run, replay=None):
             continue
         if o["kind"] != "exit":
             run.violation("%s: rash ended with %s (rc=%r, %.1fs): %s" % (kind, o["kind"], o["rc"], o["secs"], o["stderr"][-160:]),
-                          dict(kind=kind, script=c["text"][:3000], argv=c.get("argv"), env={k: repr(v) for k, v in (c.get("env") or {}).items()}, observed=o))
+                          dict(kind=kind, script=c["text"][:3000], argv=c.get("argv"), rash_args=c.get("rash_args"), env={k: repr(v) for k, v in (c.get("env") or {}).items()}, observed=o))
     # usage docs / argv through docopt::parse in process (catch_unwind), mutated
     docs = []
     base_docs = [D.script_text(ls, wo) for ls, wo in D.enum_usages("quick", rng)[:300:3]]
     nd = 600 if run.tier == "quick" else 10000
     for i in range(nd):
         docs.append((mutate(rng, rng.choice(base_docs)), rng.choice([[], ["a"], ["a", "v"], ["-f", "v"], ["--", "x"], ["-fo"], ["--out="], ["-o"], ["é"]])))
+    # every usage word over the characters the usage syntax gives a meaning to (K25: `<aB` is classified as a
+    # positional by its uppercase tail and has no closing `>`): exhaustive up to length 3, sampled beyond
+    words = usage_words(rng, run.tier)
+    for w in words:
+        for pre in ("", "c "):
+            doc = "#!/usr/bin/env rash\n#\n# Usage: prog %s%s\n#\n- debug:\n    msg: x\n" % (pre, w)
+            for argv in ([], ["x"], ["c", "x"], ["x", "y"]):
+                docs.append((doc, argv))
     heavy = [i for i, (doc, argv) in enumerate(docs) if k16_class(doc)]
     light = [i for i in range(len(docs)) if i not in set(heavy)]
     douts = [None] * len(docs)
